@@ -126,6 +126,22 @@ long long read_back(const C02Item *it, long long val, const T &r, int *complete)
   return Val<T>::read(r, complete);
 }
 
+// the function of item `it` may itself hand over a function and wait for what it returns
+inline void nested_handover(const C02Item *it, int id)
+{
+  if (!it || !it->nested)
+    return;
+  int cid = C02_MAXITEMS + 2150 + id;
+  c02_created(cid);
+  auto f = async([cid]() {
+    c02_exec(cid);
+    c02_exec_done(cid);
+    return cid * 3;
+  });
+  if (f.get() != cid * 3)
+    c02_exec_done(cid);  // (counts as a second completion: reported by the final check)
+}
+
 struct ItemBase
 {
   virtual ~ItemBase() {}
@@ -152,6 +168,7 @@ struct AsyncItem : ItemBase
       fut = async([tok, id_, work, val, itp]() {
         c02_exec(id_);
         sim_work((uint32_t)work);
+        nested_handover(itp, id_);
         T r = produce<T>(itp, val);
         c02_exec_done(id_);
         return r;
@@ -213,6 +230,7 @@ struct TaskItem : ItemBase
       task = new AsyncTask<T>([tok, id_, work, val, itp]() {
         c02_exec(id_);
         sim_work((uint32_t)work);
+        nested_handover(itp, id_);
         T r = produce<T>(itp, val);
         c02_exec_done(id_);
         return r;
@@ -292,9 +310,10 @@ struct SchedItem : ItemBase
     int work = it ? it->task_work : 0;
     {
       SimTag tag(SIM_TAG_SUT);
-      schedule([tok, id, work]() {
+      schedule([tok, id, work, it]() {
         c02_exec(id);
         sim_work((uint32_t)work);
+        nested_handover(it, id);
         c02_exec_done(id);
       });
     }
